@@ -356,6 +356,10 @@ func (x *Exec) modularCall(st *State, fr *Frame, ci *ssa.Call, c *FuncContract, 
 	} else if !c.pure {
 		penv := &Env{x: x, st: pre, vars: vars, pkg: pkg}
 		for _, m := range c.modifies {
+			mcond := x.modCond(penv, m)
+			if mcond == False {
+				continue
+			}
 			for _, e := range m.exprs {
 				func() {
 					defer func() {
@@ -367,7 +371,24 @@ func (x *Exec) modularCall(st *State, fr *Frame, ci *ssa.Call, c *FuncContract, 
 						}
 					}()
 					for _, ml := range x.modLocs(penv, e) {
+						if mcond == nil {
+							x.havocMod(st, ml, short)
+							continue
+						}
+						// conditional: the row of the object keeps its value unless the condition holds
+						li := resolveLoc(ml.ptr)
+						base := ml.ptr.l[0]
+						before := map[string]*Term{}
+						for k := li.lo; k < li.hi; k++ {
+							before[li.key(k)] = st.region(li.key(k), li.regionSort(k))
+						}
 						x.havocMod(st, ml, short)
+						for k := li.lo; k < li.hi; k++ {
+							key := li.key(k)
+							old := before[key]
+							now := st.region(key, li.regionSort(k))
+							st.setRegion(key, Store(old, base, Ite(mcond, Select(now, base), Select(old, base))))
+						}
 					}
 				}()
 			}
